@@ -47,6 +47,7 @@ structure Sched where
   st : St := {}
   ls : Listeners := {}
   observers : List Nat := []
+  hist : List Ev := []          -- ghost: all core events so far (read by no operation)
 deriving Inhabited
 
 /-- the function id under which the execution engine registers its service-started listener -/
@@ -85,10 +86,10 @@ def Sched.finish (s : Sched) (r : Run) (st : St) : Sched × List Ev :=
     let n := s.rootNote
     let st := st.emit (.note n)
     let st := st.flush 0
-    ({ s with run := .fin, running := false, st := { st with out := [] } }, st.out)
+    ({ s with run := .fin, running := false, st := { st with out := [] }, hist := s.hist ++ st.out }, st.out)
   else
     let st := st.flush 0
-    ({ s with run := r, st := { st with out := [] } }, st.out)
+    ({ s with run := r, st := { st with out := [] }, hist := s.hist ++ st.out }, st.out)
 
 /-- consume the START event: the production task starts -/
 def Sched.begin (s : Sched) (ee : EE) (fuel : Nat) : Sched × List Ev :=
@@ -174,7 +175,8 @@ def Sched.runOps (ee : EE) (fuel : Nat) (s : Sched) : List Op → Sched
   | op :: ops => (s.step ee fuel op).sched.runOps ee fuel ops
 
 /-- a freshly constructed scheduler -/
-def Sched.init (P : Prog) (valid : Bool) : Sched := { prog := P, valid := valid }
+def Sched.init (P : Prog) (valid : Bool) : Sched :=
+  { prog := P, valid := valid && (P.task? Generated.startTaskName).isSome }   -- a valid program has a production task
 
 /-- services announced and not yet completed -/
 def Sched.outstanding (s : Sched) : List Nat := s.run.waiting
